@@ -1429,7 +1429,15 @@ class Interp:
                                 break
                             xp = Poly.atom(x)
                             if o.ctx.decide(cmp_term('Lt', v.term, xp)) is not True:
-                                dec = False
+                                # x & y <= min(x, y), min(..), x mod c, x / c, x >> k are bounded by their (non-negative) operands
+                                a_ = v.term.as_single_atom()
+                                ubs = []
+                                if a_ is not None and a_[0] in ('bitand', 'min', 'fmin'):
+                                    ubs = [q for q in a_[1:] if isinstance(q, Poly)]
+                                elif a_ is not None and a_[0] in ('mod', 'idiv', 'shr') and isinstance(a_[1], Poly) and o.ctx.rng(a_[1])[0] >= 0:
+                                    ubs = [a_[1]]
+                                if not any(o.ctx.decide(cmp_term('Lt', q, xp)) is True for q in ubs):
+                                    dec = False
                             if o.ctx.decide(cmp_term('Gt', v.term, xp)) is not True:
                                 inc = False
                         if dec or inc:
